@@ -371,7 +371,7 @@ func migrate(run *vr.Run) {
 	budget := 5 * time.Minute
 	if run.Thorough() {
 		D = 3
-		budget = 45 * time.Minute
+		budget = 90 * time.Minute
 	}
 	run.Set("delay_bound", D)
 	single := map[string]bool{}
